@@ -2410,7 +2410,30 @@ class FParser2IR(GenericVisitor):
         * the body
         """
         cond = self.visit(o.items[0], **kwargs)
-        body = as_tuple(self.visit(o.items[1], **kwargs))
+
+        # The action statement has no reader item of its own: restrict its source
+        # to the text that follows the parenthesised condition
+        body_kwargs = dict(kwargs)
+        source = kwargs.get('source')
+        if source is not None and source.string is not None:
+            depth, quote, end = 0, None, None
+            for idx, char in enumerate(source.string):
+                if quote:
+                    quote = None if char == quote else quote
+                elif char in '"\'':
+                    quote = char
+                elif char == '(':
+                    depth += 1
+                elif char == ')':
+                    depth -= 1
+                    if depth == 0:
+                        end = idx + 1
+                        break
+            if end is not None:
+                end += len(source.string[end:]) - len(source.string[end:].lstrip(' \t&\n'))
+                body_kwargs['source'] = source.clone_with_span((end, len(source.string)))
+        body = as_tuple(self.visit(o.items[1], **body_kwargs))
+
         return ir.Conditional(condition=cond, body=body, else_body=(), inline=True,
                               label=kwargs.get('label'), source=kwargs.get('source'))
 
